@@ -8,7 +8,7 @@ from typing import Dict, List, Optional, Set, Tuple
 
 from engine import AnalysisError
 from engine.cfg import stmt_of
-from engine.dataflow import target_names, assigned_value
+from engine.dataflow import target_names, assigned_value, stmt_defs
 from engine.srcmodel import walk_shallow, norm, parent
 from engine.util import call_name, contains, in_body
 from ._c01_util import (loads, load_ids, read_reserved, key_templates, literal_pieces,
@@ -482,34 +482,108 @@ def r3_reserved_parts_cover_generated_names(ctx, rid):
 REQUIRED_BOUNDARY_CHARS = set("+-*/^()=<>, ")
 
 
+def _char_collection(ctx, scope, e: ast.AST, depth: int = 0):
+    """(set of characters, defining statement) when `e` denotes a constant collection of single characters: a string literal,
+    a list/tuple/set of one-character strings, set(...)/frozenset(...)/tuple(...)/list(...) of one, a concatenation / union of
+    such, a local name with one such definition, or a module-level constant (also one imported from another module).
+    `scope` is the FunctionInfo (or the Module, for module-level expressions) in which the names of `e` are resolved.
+    None when `e` is anything else."""
+    from engine.srcmodel import FunctionInfo
+    if depth > 6 or e is None:
+        return None
+    if isinstance(e, ast.Constant) and isinstance(e.value, str):
+        return set(e.value), None
+    if isinstance(e, (ast.List, ast.Tuple, ast.Set)):
+        if e.elts and all(isinstance(x, ast.Constant) and isinstance(x.value, str) and len(x.value) == 1 for x in e.elts):
+            return {x.value for x in e.elts}, None
+        return None
+    if isinstance(e, ast.Call) and isinstance(e.func, ast.Name) and e.func.id in ("set", "frozenset", "tuple", "list", "str") \
+            and len(e.args) == 1 and not e.keywords:
+        return _char_collection(ctx, scope, e.args[0], depth + 1)
+    if isinstance(e, ast.BinOp) and isinstance(e.op, (ast.Add, ast.BitOr)):
+        l, r = _char_collection(ctx, scope, e.left, depth + 1), _char_collection(ctx, scope, e.right, depth + 1)
+        if l is not None and r is not None:
+            return l[0] | r[0], l[1] or r[1]
+        return None
+    module = scope.module if isinstance(scope, FunctionInfo) else scope
+    if isinstance(e, ast.Name):
+        if isinstance(scope, FunctionInfo) and ctx.rd(scope).is_local(e.id):
+            if e.id in scope.params:
+                return None
+            defs = [st for st in ctx.cfg(scope).stmts() if e.id in stmt_defs(st)]
+            if len(defs) != 1:
+                return None
+            r = _char_collection(ctx, scope, assigned_value(defs[0], e.id), depth + 1)
+            return (r[0], r[1] or defs[0]) if r is not None else None
+        return _module_constant(ctx, module, e.id, depth)
+    if isinstance(e, ast.Attribute):
+        base = ctx.repo.resolve_expr(module, e.value)
+        if base is not None and hasattr(base, "assigns"):
+            return _module_constant(ctx, base, e.attr, depth)
+    return None
+
+
+def _module_constant(ctx, m, name: str, depth: int):
+    if name in m.assigns:
+        sts = m.assigns[name]
+        if len(sts) != 1:
+            return None
+        r = _char_collection(ctx, m, assigned_value(sts[0], name), depth + 1)
+        return (r[0], r[1] or sts[0]) if r is not None else None
+    if name in m.imports:
+        src, sym = m.imports[name]
+        tm = ctx.repo.modules.get(src)
+        if tm is not None and sym is not None and sym != "*":
+            return _module_constant(ctx, tm, sym, depth + 1)
+    return None
+
+
+def _boundary_sets(ctx, rid, f):
+    """The character collections against which the scanner `f` tests the neighbours of a match: right-hand sides of
+    `<expr> in <collection>` / `not in` tests in f — and in private helpers of the same module that f calls — that denote a
+    constant collection of (at least four) characters.  Returns [(chars, defining stmt, test, function)]."""
+    out = []
+    funcs = [f]
+    for _call, targets, how in ctx.cg.calls.get(f, ()):
+        if how in ("module", "local-def", "qualified") and len(targets) == 1 and targets[0].module is f.module \
+                and targets[0] not in funcs:
+            funcs.append(targets[0])
+    for g in funcs:
+        for c in ast.walk(g.node):
+            if not (isinstance(c, ast.Compare) and len(c.ops) == 1 and isinstance(c.ops[0], (ast.In, ast.NotIn))):
+                continue
+            if isinstance(c.left, ast.Constant):
+                continue            # `"=" in eq_part`: a fixed character looked up in data, not a neighbour looked up in a set
+            r = _char_collection(ctx, g, c.comparators[0])
+            if r is not None and len(r[0]) >= 4:
+                out.append((r[0], r[1] or stmt_of(ctx.cfg(g), c), c, g))
+    return out
+
+
 def r4_boundary_vocabulary(ctx, rid):
     """parser.replace substitutes an identifier only when both neighbours are in its boundary-character set.  Every operator
     character of the equation grammar must be in that set, otherwise the substitution silently depends on how the equation is
-    written (`s^2` vs `s**2` vs `s ^ 2`).  Also: the sibling scanner var_in_expression must use the same set."""
-    import ast as _ast
-    from engine import AnalysisError as _AE
-    from engine.srcmodel import walk_shallow as _ws
+    written (`s^2` vs `s**2` vs `s ^ 2`).  Also: the sibling scanner var_in_expression must use the same set.
+    The set is found by role: the constant character collection(s) that the scanner's membership tests read — a local
+    string, a module-level constant, a set(...) of characters; also inside a private helper the scanner calls."""
     sets = {}
     for q in ("replace", "var_in_expression"):
         f = ctx.repo.find_func("pyrates/backend/parser.py", q)
         if f is None:
             if q == "replace":
-                raise _AE(f"{rid}: parser.replace vanished")
+                raise AnalysisError(f"{rid}: parser.replace vanished")
             continue
-        consts = [st for st in _ws(f.node) if isinstance(st, _ast.Assign) and isinstance(st.value, _ast.Constant) and isinstance(st.value.value, str)
-                  and len(st.value.value) >= 8 and any(isinstance(t, _ast.Name) and "ops" in t.id for t in st.targets)]
-        if len(consts) != 1:
-            raise _AE(f"{rid}: boundary-character set of parser.{q} not recognised")
-        # the set must actually be what the boundary test reads
-        name = consts[0].targets[0].id
-        used = [c for c in _ast.walk(f.node) if isinstance(c, _ast.Compare) and isinstance(c.ops[0], _ast.In)
-                and isinstance(c.comparators[0], _ast.Name) and c.comparators[0].id == name]
-        if not used:
-            raise _AE(f"{rid}: `{name}` is not used by a membership test in parser.{q}")
-        sets[q] = (f, consts[0], set(consts[0].value.value))
-    f, st, chars = sets["replace"]
+        found = _boundary_sets(ctx, rid, f)
+        if not found:
+            raise AnalysisError(f"{rid}: boundary-character set of parser.{q} not recognised")
+        # several tests (neighbour before / neighbour after) may read different collections: a character is a token
+        # boundary only if it is one on both sides
+        chars = set.intersection(*[x[0] for x in found])
+        sets[q] = (f, found[0][1], chars, found)
+    f, st, chars, found = sets["replace"]
     missing = sorted(REQUIRED_BOUNDARY_CHARS - chars)
-    facts = {"boundary_set": "".join(sorted(chars)), "required": "".join(sorted(REQUIRED_BOUNDARY_CHARS))}
+    facts = {"boundary_set": "".join(sorted(chars)), "required": "".join(sorted(REQUIRED_BOUNDARY_CHARS)),
+             "read_by": sorted({norm(x[2]) for x in found})}
     if missing:
         ctx.violation(rid, f, st, f"the boundary set of parser.replace lacks {missing}: an identifier written directly next to "
                                   f"{' or '.join(repr(m) for m in missing)} is not substituted (summed operator inputs, template `replace` edits), "
@@ -518,7 +592,7 @@ def r4_boundary_vocabulary(ctx, rid):
         ctx.ok(rid, f, st, "every operator character of the equation grammar is a token boundary for substitution", facts,
                label="boundary characters cover the operator vocabulary")
     if "var_in_expression" in sets:
-        g, st2, chars2 = sets["var_in_expression"]
+        g, st2, chars2, _found2 = sets["var_in_expression"]
         if chars2 == chars:
             ctx.ok(rid, g, st2, "the sibling scanner uses the same boundary set", label="sibling boundary sets agree")
         else:
